@@ -489,7 +489,8 @@ func C14(c *core.Ctx) {
 		}
 		ok := feed != nil
 		var resets []ssa.Instruction
-		core.Instrs(fn, func(in ssa.Instruction) {
+		// (the Reset may sit in a small helper that hands out the hasher: acquireHasher())
+		core.InstrsDeep(fn, func(in ssa.Instruction) {
 			if ci, isC := in.(ssa.CallInstruction); isC && ci.Common().IsInvoke() && ci.Common().Method.Name() == "Reset" {
 				resets = append(resets, in)
 			}
